@@ -476,6 +476,34 @@ struct ResolvedNCommandsWithOutput {
     resolved_before_proofs: Vec<ResolvedNCommand>,
 }
 
+/// The declarations a command had recorded by the time it was rejected.
+///
+/// Sorts, functions and globals are entered into the type information (and
+/// into the shadowing table) while a command is typechecked, before anything
+/// is executed. A command that is rejected afterwards must not leave them
+/// behind: the name would stay bound although nothing was declared, so the
+/// corrected command would be refused as a redeclaration and a use of the name
+/// would reach tables that do not exist.
+enum DeclCheckpoint {
+    /// The command declares nothing.
+    None,
+    /// `(let name ..)` can only touch the entries of `name`. Kept apart from
+    /// `Full` because programs with thousands of top-level lets are common and
+    /// copying every table for each of them would be quadratic.
+    Global {
+        name: String,
+        sort: Option<ArcSort>,
+        original_sort: Option<Option<ArcSort>>,
+        names: ast::check_shadowing::NamesEntry,
+    },
+    /// Any other declaration: the tables themselves.
+    Full {
+        type_info: Box<TypeInfo>,
+        original_type_info: Option<Box<TypeInfo>>,
+        names: Box<ast::check_shadowing::Names>,
+    },
+}
+
 #[derive(Debug, Error)]
 #[error("Not found: {0}")]
 pub struct NotFoundError(String);
@@ -2107,6 +2135,75 @@ impl EGraph {
         }
     }
 
+    /// Remember what `command` may declare, see [`DeclCheckpoint`].
+    fn declaration_checkpoint(&self, command: &Command) -> DeclCheckpoint {
+        let original = self.proof_state.original_typechecking.as_ref();
+        match command {
+            Command::Fail(_, inner) => self.declaration_checkpoint(inner),
+            Command::Action(Action::Let(_, name, _)) => DeclCheckpoint::Global {
+                name: name.clone(),
+                sort: self.type_info.global_sorts.get(name).cloned(),
+                original_sort: original.map(|eg| eg.type_info.global_sorts.get(name).cloned()),
+                names: self.names.entry(name),
+            },
+            Command::Sort { .. }
+            | Command::Datatype { .. }
+            | Command::Datatypes { .. }
+            | Command::Function { .. }
+            | Command::Constructor { .. }
+            | Command::Relation { .. }
+            | Command::AddRuleset(..)
+            | Command::UnstableCombinedRuleset(..) => DeclCheckpoint::Full {
+                type_info: Box::new(self.type_info.clone()),
+                original_type_info: original.map(|eg| Box::new(eg.type_info.clone())),
+                names: Box::new(self.names.clone()),
+            },
+            _ => DeclCheckpoint::None,
+        }
+    }
+
+    /// Forget what a rejected command declared, see [`DeclCheckpoint`].
+    fn rollback_declarations(&mut self, checkpoint: DeclCheckpoint) {
+        fn restore(sorts: &mut HashMap<String, ArcSort>, name: &str, sort: Option<ArcSort>) {
+            match sort {
+                Some(sort) => sorts.insert(name.to_owned(), sort),
+                None => sorts.remove(name),
+            };
+        }
+        match checkpoint {
+            DeclCheckpoint::None => {}
+            DeclCheckpoint::Global {
+                name,
+                sort,
+                original_sort,
+                names,
+            } => {
+                restore(&mut self.type_info.global_sorts, &name, sort);
+                if let (Some(eg), Some(sort)) = (
+                    self.proof_state.original_typechecking.as_mut(),
+                    original_sort,
+                ) {
+                    restore(&mut eg.type_info.global_sorts, &name, sort);
+                }
+                self.names.restore_entry(&name, names);
+            }
+            DeclCheckpoint::Full {
+                type_info,
+                original_type_info,
+                names,
+            } => {
+                self.type_info = *type_info;
+                if let (Some(eg), Some(type_info)) = (
+                    self.proof_state.original_typechecking.as_mut(),
+                    original_type_info,
+                ) {
+                    eg.type_info = *type_info;
+                }
+                self.names = *names;
+            }
+        }
+    }
+
     /// Run a program, returning the desugared outputs as well as the CommandOutputs.
     /// Can optionally not run the commands, just adding type information.
     fn process_program_internal(
@@ -2147,7 +2244,16 @@ impl EGraph {
                     desugared.extend(resolved.resolved);
                     desugared_before_proofs.extend(resolved.resolved_before_proofs);
                 } else {
-                    let resolved = self.resolve_command(command)?;
+                    // A command rejected before any part of it ran leaves no
+                    // declaration behind.
+                    let mut checkpoint = Some(self.declaration_checkpoint(&command));
+                    let resolved = match self.resolve_command(command) {
+                        Ok(resolved) => resolved,
+                        Err(err) => {
+                            self.rollback_declarations(checkpoint.take().unwrap());
+                            return Err(err);
+                        }
+                    };
                     if run_commands && self.are_proofs_enabled() {
                         self.proof_check_program
                             .extend(resolved.desugared_before_proofs.clone());
@@ -2164,8 +2270,17 @@ impl EGraph {
                                 ResolvedNCommand::Push(_) | ResolvedNCommand::Pop(_, _)
                             )
                         {
-                            let result = self.run_command(processed)?;
-                            outputs.extend(result);
+                            match self.run_command(processed) {
+                                Ok(result) => outputs.extend(result),
+                                Err(err) => {
+                                    if let Some(checkpoint) = checkpoint.take() {
+                                        self.rollback_declarations(checkpoint);
+                                    }
+                                    return Err(err);
+                                }
+                            }
+                            // Part of the command took effect: its declarations stay.
+                            checkpoint = None;
                         }
                     }
                 }
